@@ -9,6 +9,10 @@ ids = [json.loads(l)['id'] for l in (V / 'properties.jsonl').read_text().splitli
 TECH = 'contract-based deductive verification: own VC generator (pyvc) over the real .py/.pyx source, sidecar contracts, z3/cvc5'
 
 CLAIMED = {
+	'C17': dict(
+		text='linkage_to_bio_tree is verified for every linkage matrix and label list against a structural postcondition over ghost clade state (clade identity = allocation counter; name / branch_length / children in ghost arrays): leaf j is a new clade named labels[j], row i creates the clade with identity base+n+i whose two children are the clades of the row, every merged node gets branch_length = height of the row - height of the node (0 for leaves), the root is the last clade, AssertionError iff the label count is not rows+1 (loop invariant over the rows; the no-node-merged-twice precondition is what keeps earlier branch lengths from being overwritten). Lemmas over that postcondition and the assumed SciPy linkage contract: every branch length is parent height - node height and non-negative, path sums telescope (induction on the number of steps), hence all leaves are at the root height from the root and the path between two leaves is twice the height of their first common ancestor. hclust is verified to return linkage(squareform(dmat), method="average") of THAT matrix; tree_cmd (both input channels) is verified against the provenance contract "labels handed to the tree builder are the ids of the very signatures the distances/linkage were computed from". SciPy UPGMA itself, Newick printing and the float arithmetic are outside: BOUNDED stand-in (real hclust + linkage_to_bio_tree and the real command on files / list file / signature file, Newick parsed back, against SciPy cophenetic distances).',
+		note='Trusted: SciPy linkage/squareform contract (UPGMA, ids, monotone heights), Biopython Clade/Tree/Newick writer, reals for float64, C05/C08/C12/C13 provenance contracts. Bounded only: numerical agreement of the printed tree with the UPGMA of the real distance matrix.',
+		design='3/C17'),
 	'C18': dict(
 		text='Session clauses verified on the real code over an assumed SQLAlchemy model with ghost flags for "a real flush / commit happened": ReadOnlySession.flush is a no-op that never reaches Session.flush, ReadOnlySession.commit raises TypeError on every call; file_sessionmaker builds a maker whose session class and SQLite URL are decided by the arguments of THAT call alone (ReadOnlySession for the defaults, for every path string); load_genomeset and CLIContext._init_genomes (fresh and already-initialised context; the getter re-entrance is unfolded) hand out read-only sessions on the located genome file; load_signatures_hdf5 with no caller-supplied h5py arguments opens nothing in a mode that could create, truncate or modify a file (open(path, "rb"), h5py.File(path) = mode "r"). The history clause (no byte of either file changes under any sequence of read-side commands and calls) is covered by a BOUNDED stand-in: generated histories of real CLI commands (incl. failing ones) and library calls on a private copy of the bundled database, sha256 + size of both files and the directory listing after every step, session probes after every default open.',
 		note='Trusted: SQLAlchemy model (Session.flush/commit are the only write paths of the ORM; SELECTs do not modify an SQLite file), h5py default mode. Bounded only: byte identity of the files over command histories.',
